@@ -4,6 +4,7 @@ import (
 	"encoding/json"
 	"fmt"
 	"io"
+	stdlog "log"
 	"math"
 	"math/rand"
 	"net/http"
@@ -11,6 +12,7 @@ import (
 	"reflect"
 	"strconv"
 	"strings"
+	"time"
 
 	"github.com/flamego/flamego"
 	"github.com/flamego/flamego/verifharness/core"
@@ -33,6 +35,7 @@ type cookieCase struct {
 	Name  string   `json:"name"`
 	Value core.B   `json:"value"`
 	Extra bool     `json:"other_cookies,omitempty"`
+	Attr  string   `json:"attributes,omitempty"`           // odd but harmless attributes on the judged cookie: domain-port | domain-scheme | path-semicolon | expires-1500 | partitioned-insecure | samesite-none. A bad attribute is the attribute's problem (net/http drops or cleans it); name=value still travels
 	Sib   []string `json:"related_cookie_names,omitempty"` // further cookies set in the same response, before (even index) or after (odd index) the judged one; their names are prefixes / extensions of the judged name. Every one of them is read back
 }
 
@@ -391,7 +394,9 @@ func isASCII(s string) bool {
 }
 
 func judgeCookie(w *core.W, c *cookieCase) {
+	stdlog.SetOutput(io.Discard) // net/http reports attributes it cleans through the standard logger
 	w.Eval()
+	setThenRead := ""
 	f := flamego.NewWithLogger(io.Discard)
 	f.Get("/set", func(ctx flamego.Context) {
 		if c.Extra {
@@ -402,7 +407,24 @@ func judgeCookie(w *core.W, c *cookieCase) {
 				ctx.SetCookie(http.Cookie{Name: n, Value: fmt.Sprintf("sib %d/ö", i)})
 			}
 		}
-		ctx.SetCookie(http.Cookie{Name: c.Name, Value: string(c.Value), Path: "/"})
+		ck := http.Cookie{Name: c.Name, Value: string(c.Value), Path: "/"}
+		switch c.Attr {
+		case "domain-port":
+			ck.Domain = "localhost:2830"
+		case "domain-scheme":
+			ck.Domain = "https://example.com"
+		case "path-semicolon":
+			ck.Path = "/a;b"
+		case "expires-1500":
+			ck.Expires = time.Date(1500, 1, 1, 0, 0, 0, 0, time.UTC)
+		case "partitioned-insecure":
+			ck.Partitioned = true
+		case "samesite-none":
+			ck.SameSite = http.SameSiteNoneMode
+		}
+		ctx.SetCookie(ck)
+		// what is queued for the client is not what the client sent: reading in the same request still reads the request
+		setThenRead = ctx.Cookie(c.Name)
 		for i, n := range c.Sib {
 			if i%2 == 1 && n != c.Name {
 				ctx.SetCookie(http.Cookie{Name: n, Value: fmt.Sprintf("sib %d/ö", i)})
@@ -464,6 +486,13 @@ func judgeCookie(w *core.W, c *cookieCase) {
 		return
 	}
 	w.Count("cookie-round-trips")
+	if setThenRead != "" {
+		w.Violate("cookie", c, fmt.Sprintf("Cookie(%q) read %q in the request that merely queued it with SetCookie - the request did not carry it", c.Name, setThenRead))
+		return
+	}
+	if c.Attr != "" {
+		w.Count("cookie-with-odd-attributes")
+	}
 	if got != string(c.Value) {
 		w.Violate("cookie", c, fmt.Sprintf("cookie value %q read back as %q (Set-Cookie: %q)", string(c.Value), got, spy.h["Set-Cookie"]))
 		return
@@ -543,7 +572,10 @@ func runC18(r *core.Run) {
 				b[j] = byte(rng.Intn(256))
 			}
 		}
-		c := &cookieCase{Name: []string{"n", "sess-id", "a.b", "session"}[rng.Intn(4)], Value: core.B(b), Extra: rng.Intn(3) == 0}
+		c := &cookieCase{Name: []string{"n", "sess-id", "a.b", "session", "cart+items", "a!b", "x#y$z", "p%q", "m&n", "it's", "s*", "c^d", "b`t", "u|v", "t~_-."}[rng.Intn(15)], Value: core.B(b), Extra: rng.Intn(3) == 0}
+		if rng.Intn(6) == 0 {
+			c.Attr = []string{"domain-port", "domain-scheme", "path-semicolon", "expires-1500", "partitioned-insecure", "samesite-none"}[rng.Intn(6)]
+		}
 		if rng.Intn(4) == 0 {
 			for k := 1 + rng.Intn(3); k > 0; k-- {
 				c.Sib = append(c.Sib, []string{c.Name + "_id", c.Name + "2", c.Name[:1], c.Name + c.Name, "x" + c.Name, c.Name + "-"}[rng.Intn(6)])
@@ -552,7 +584,7 @@ func runC18(r *core.Run) {
 		w.Begin("cookie", c)
 		judgeCookie(w, c)
 	})
-	for _, k := range []string{"class:absent", "class:empty", "class:well-formed-int", "class:well-formed-float", "class:well-formed-bool", "class:malformed", "class:out-of-range", "class:needs-escaping", "multi-valued", "form-body-parsed-before-reading", "cookie-class:empty", "cookie-class:plain", "cookie-class:separators", "cookie-class:non-ascii-or-control", "cookie-with-related-names", "body-read:unknown", "body-read:exact", "body-read:none"} {
+	for _, k := range []string{"class:absent", "class:empty", "class:well-formed-int", "class:well-formed-float", "class:well-formed-bool", "class:malformed", "class:out-of-range", "class:needs-escaping", "multi-valued", "form-body-parsed-before-reading", "cookie-class:empty", "cookie-class:plain", "cookie-class:separators", "cookie-class:non-ascii-or-control", "cookie-with-related-names", "cookie-with-odd-attributes", "body-read:unknown", "body-read:exact", "body-read:none"} {
 		r.GateCounter(k, 20)
 	}
 	r.GateCounter("cookie-single-bytes", 256)
